@@ -15,7 +15,7 @@ RUN_MODULE = "Run.C18Run"
 CHUNK = 300
 K = dict(callable_refs=0.25, decor=0.5, state_decor=0.2, cbs=0.3, conv=0.1, guards=0.5, internal=0.7, self_loop=0.35, multi_event=0.5, final=0.3, sends=0.0,
          raises=0.0, p_async=0.0, rtc_false=0.0, allow=1.0, ops=(0, 4), falsy_machine=0.0, p_values=0.35,
-         start=0.0, resume=0.0, p_write=0.0, p_construct=0.0, p_activate=0.0, styles=("str", "list", "obj", "assign"))
+         start=0.35, resume=0.0, p_write=0.0, p_construct=0.0, p_activate=0.0, styles=("str", "list", "obj", "assign"))
 
 
 def node_name(n):
@@ -71,6 +71,15 @@ def run_impl(sc):
         sm = ns["construct"](ns["Mdl"](), ns["LISTENERS"])
         visited = set()
         helper = DotGraphMachine(sm)          # one helper object reused while the machine moves on
+        # right after construction (possibly with a start_value naming another state than the initial one)
+        first = sc["start"] if sc.get("start") is not None else sc["initial"]
+        nodes, edges = parse_graph(helper(), sc)
+        out.append({"cur": first, "nodes": nodes, "edges": edges})
+        if sc.get("late_guard_listener"):
+            # a listener attached later that has an attribute for every guard name: the picture of the declared
+            # machine does not change
+            obj = type("LateGuards", (), {eng.cbname(list(nm)): True for nm in eng.guard_names(sc)})()
+            sm.add_listener(obj)
         for k, s in enumerate(sc["visit"]):
             if k % 4 in (2, 3):
                 sm.model.state = eng.state_value(sc, s)      # the state changes behind the machine's back (e.g. reloaded)
@@ -147,6 +156,7 @@ def generate(rng, tier):
         if rng.random() < 0.5:
             sc["visit"] = sc["visit"] + [rng.choice(states) for _ in range(rng.randint(1, 3))]      # revisits
         _dups(sc, rng)
+        sc["late_guard_listener"] = rng.random() < 0.4
         scs.append(sc)
     return scs, [("seeded random machine classes (finals, multi-event, self, internal transitions, cond / unless "
                   "guards, four declaration styles): the class graph and the instance graph in 1..all of its "
